@@ -50,7 +50,15 @@ def run(rep):
         ct, depth = rng.choice([(2, 8), (6, 8), (2, 16), (6, 16), (0, 8), (4, 8), (3, 8)])
         w, h = imggen.pick_dims(rng)
         cls = rng.choice(["gray", "gray", "random", "fewcolors", "opaque"])
-        tok, _ = imggen.gen(rng, ct, depth, w, h, False, cls, "none")
+        ncol = None
+        if k % 4 == 3:
+            # targeted stratum: images for which a move between grayscale and colour/indexed actually pays off
+            # (few distinct gray / gray+alpha values with real alpha, gray palettes), large enough for the candidate to win
+            ct, depth = rng.choice([(0, 8), (4, 8), (4, 8), (3, 8), (3, 4), (2, 8), (6, 8)])
+            w, h = rng.choice([16, 17, 32, 33, 64]), rng.choice([16, 17, 32, 33, 64])
+            cls = "gray" if ct in (3, 2, 6) else "fewcolors"
+            ncol = rng.choice([2, 3, 4, 5])
+        tok, _ = imggen.gen(rng, ct, depth, w, h, False, cls, "none", ncol)
         png, info = chunkgen.gen_png(rng, tok=tok, with_colorspace=cs_kind or "", dup=False)
         policy = rng.choice(["none", "none", "safe", "all", "strip:" + b"sRGB".hex(), "strip:" + b"iCCP".hex(), "keep:" + b"sRGB".hex(),
                              "keep:" + b"iCCP".hex(), "keep:" + b"iCCP".hex() + "+" + b"sRGB".hex(), "strip:" + b"tEXt".hex()])
